@@ -1,7 +1,7 @@
 (* View::layout: total (never panics) for every tree and every valid constraint, and the sizes of
    text, str, flex, container, image, glyph, fill, unit and probe views lie within the constraint. *)
 From Coq Require Import List Arith Bool NArith ZArith Lia.
-From SNT Require Import Base.Outcome Surface.Bounds Surface.Shape Render.CellLayout Render.Writer View.ViewModel.
+From SNT Require Import Base.Outcome Surface.Bounds Surface.Shape Render.CellLayout Render.Writer Render.LayoutFacts View.ViewModel.
 Import ListNotations.
 Local Open Scope N_scope.
 
@@ -22,6 +22,10 @@ Section VtreeInd.
   Hypothesis HImage : forall id ph pw, P (VImage id ph pw).
   Hypothesis HGlyph : forall id gh gw fb, P (VGlyph id gh gw fb).
   Hypothesis HProbe : forall id ph pw, P (VProbe id ph pw).
+  Hypothesis HSurface : forall sfh sfw cl, P (VSurface sfh sfw cl).
+  Hypothesis HAscii : forall ih iw color, P (VImageAscii ih iw color).
+  Hypothesis HRefNone : P (VRef None).
+  Hypothesis HRefSome : forall v', P v' -> P (VRef (Some v')).
 
   Fixpoint vtree_rect (v : vtree) : P v :=
     match v with
@@ -49,8 +53,64 @@ Section VtreeInd.
     | VImage id ph pw => HImage id ph pw
     | VGlyph id gh gw fb => HGlyph id gh gw fb
     | VProbe id ph pw => HProbe id ph pw
+    | VSurface sfh sfw cl => HSurface sfh sfw cl
+    | VImageAscii ih iw color => HAscii ih iw color
+    | VRef None => HRefNone
+    | VRef (Some v0) => HRefSome v0 (vtree_rect v0)
     end.
 End VtreeInd.
+
+Local Arguments Nat.modulo : simpl never.
+Local Arguments Nat.sub : simpl never.
+Local Arguments Nat.min : simpl never.
+Local Arguments Nat.max : simpl never.
+Local Arguments Nat.add : simpl never.
+
+(* ---------- the cap on the available width in text_layout_v is exact ---------- *)
+Definition linc (c : lcell) : nat := match c with LSized _ w => w | LTab => 8 | _ => 0 end.
+
+Lemma step_bound maxw wr s c s' p B : layout_step maxw wr s c = (s', p) ->
+  (l_c s <= B)%nat -> (l_w s <= B)%nat -> (l_c s' <= B + linc c)%nat /\ (l_w s' <= B + linc c)%nat.
+Proof.
+  unfold layout_step. destruct c as [| | |h w]; cbn [linc].
+  - intros [= <- _]; cbn; lia.
+  - intros [= <- _]; cbn; lia.
+  - intros [= <- _]; cbn [l_c l_w]. intros Hc Hw. pose proof (Nat.mod_upper_bound (l_c s) 8). lia.
+  - destruct ((h =? 0)%nat || (w =? 0)%nat); [intros [= <- _]; lia|].
+    destruct (l_c s + w <=? maxw)%nat; [intros [= <- _]; cbn; lia|].
+    destruct (negb wr); intros [= <- _]; cbn; lia.
+Qed.
+
+Lemma lrun_bound maxw wr cs : forall s B, (l_c s <= B)%nat -> (l_w s <= B)%nat ->
+  (l_w (fst (lrun maxw wr s cs)) <= B + fold_right (fun c a => linc c + a) 0 cs)%nat.
+Proof.
+  induction cs as [|c t IH]; intros s B Hc Hw; [cbn; lia|]. rewrite lrun_cons. cbn [fst fold_right].
+  destruct (layout_step maxw wr s c) as [s1 p] eqn:H1. cbn [fst].
+  destruct (step_bound _ _ _ _ _ _ B H1 Hc Hw) as [Hc1 Hw1].
+  specialize (IH s1 (B + linc c)%nat Hc1 Hw1). lia.
+Qed.
+
+Lemma text_bound_linc vc cells :
+  text_bound vc cells = fold_right (fun c a => linc c + a)%nat 0%nat
+                          (map (fun c => classify (v_r vc) (c_kind c)) (expand (v_r vc) cells)).
+Proof.
+  unfold text_bound. induction (expand (v_r vc) cells) as [|c t IH]; cbn [fold_right map]; [reflexivity|].
+  rewrite IH. destruct (classify (v_r vc) (c_kind c)); reflexivity.
+Qed.
+
+(* measuring with the capped width is measuring with the available width *)
+Theorem text_size_cap vc cells wraps (maxw : N) :
+  text_size (v_r vc) cells wraps (N.to_nat (N.min maxw (N.of_nat (text_bound vc cells)))) =
+  text_size (v_r vc) cells wraps (N.to_nat maxw).
+Proof.
+  destruct (N.le_gt_cases maxw (N.of_nat (text_bound vc cells))) as [Hle|Hgt].
+  - rewrite N.min_l by exact Hle. reflexivity.
+  - rewrite N.min_r by lia. rewrite Nat2N.id. unfold text_size.
+    rewrite (lrun_stable (N.to_nat maxw) (text_bound vc cells)); [reflexivity|lia|].
+    pose proof (lrun_bound (N.to_nat maxw) wraps (map (fun c => classify (v_r vc) (c_kind c)) (expand (v_r vc) cells)) l0 0%nat
+                  (Nat.le_refl _) (Nat.le_refl _)) as Hb.
+    rewrite <- text_bound_linc in Hb. cbn [l_c l_w l0] in Hb. lia.
+Qed.
 
 (* ---------- clamp ---------- *)
 Lemma clampN_ok v lo hi : lo <= hi -> exists x, clampN v lo hi = Ok x /\ lo <= x <= hi.
@@ -138,7 +198,7 @@ Proof.
       exists p. split; [reflexivity|]. cbn [f1_trees f1_total] in L, T. rewrite app_length in L. cbn in L.
       cbn [sumf fold_right snd fst]. split; [cbn [length]; lia|]. fold (sumf t). lia.
     + destruct (Hch cl Hcl) as (t0 & E). cbn [fst] in E. rewrite E. cbn [bind].
-      destruct (IH (mkFl1 (f1_trees a ++ [t0]) (f1_nonflex a + major d (l_hh t0) (l_ww t0))
+      destruct (IH (mkFl1 (f1_trees a ++ [t0]) (sat_addN (f1_nonflex a) (major d (l_hh t0) (l_ww t0)))
                           (N.max (f1_minor a) (minor d (l_hh t0) (l_ww t0))) (f1_total a)) Ht)
         as (p & -> & L & T).
       exists p. split; [reflexivity|]. cbn [f1_trees f1_total] in L, T. rewrite app_length in L. cbn in L.
@@ -208,7 +268,7 @@ Proof.
     - cbn [f2_total]. rewrite T1. pose proof (sumf_combine cs (f1_trees p1)). lia.
     - eauto. }
   destruct Hp2 as (p2 & ->). cbn [bind].
-  destruct (flex_spaces_ok j (major d (c_maxh c) (c_maxw c) - (f1_nonflex p1 + f2_flex p2)) (N.of_nat (length cs)))
+  destruct (flex_spaces_ok j (major d (c_maxh c) (c_maxw c) - sat_addN (f1_nonflex p1) (f2_flex p2)) (N.of_nat (length cs)))
     as (sp & ->). cbn [bind].
   destruct (fold_left _ _ _) as [placed off].
   destruct (from_axes d off (f2_minor p2)) as [h w].
@@ -272,13 +332,17 @@ Proof.
     + destruct (leaf_clamped_ok c (N.of_nat gh) (N.of_nat gw) Hv) as (t & -> & _). eauto.
     + destruct (text_layout_ok vc (str_cells fb) true c Hv) as (t & -> & _). eauto.
   - destruct (leaf_clamped_ok c ph pw Hv) as (t & -> & _). eauto.
+  - destruct (leaf_clamped_ok c sfh sfw Hv) as (t & -> & _). eauto.
+  - destruct (leaf_clamped_ok c (ih / 2 + ih mod 2) iw Hv) as (t & -> & _). eauto.
+  - eauto.
+  - destruct (IHv c Hv) as (t & ->). cbn. eauto.
 Qed.
 
 (* the kinds whose reported size the property claims to lie within the constraint *)
 Definition claimed_kind (v : vtree) : bool :=
   match v with
   | VText _ _ | VStr _ | VFlex _ _ _ | VContainer _ _ _ _ _ _ _ | VFill _ | VUnit | VImage _ _ _ | VGlyph _ _ _ _
-  | VProbe _ _ _ => true
+  | VProbe _ _ _ | VSurface _ _ _ | VImageAscii _ _ _ => true
   | _ => false
   end.
 
@@ -315,5 +379,7 @@ Proof.
   - destruct (image_cells vc ph pw) as [h w]. apply leaf_clamped_within.
   - destruct (has_glyphs (v_r vc)); [apply leaf_clamped_within|].
     intros E. destruct (text_layout_ok vc (str_cells fb) true c Hv) as (t' & E' & W). congruence.
+  - apply leaf_clamped_within.
+  - apply leaf_clamped_within.
   - apply leaf_clamped_within.
 Qed.
